@@ -6,7 +6,7 @@ import HickoryVerif.Model.Multiplexer
 Line protocol of C16.
 
 UDP (stateless, one line per query):
-`udp <timeout> <retry_interval> <retry_floor> <max_retries> <server> <id> <case01>[n|o|m|f] <questions> { | <event>* }*`
+`udp <timeout> <retry_interval> <retry_floor> <max_retries> <server> <id> <case01>[n|o|m|f][x][e][s] <questions> { | <event>* }*`
 * case01    case randomisation, followed by how the harness builds the request (ignored by the model:
             the code reads `options().case_randomization` whatever the constructor)
 * addr      `4:<ip as decimal>:<port>` / `6:<ip as decimal>:<port>`
@@ -52,6 +52,31 @@ def parseEvent (s : String) : Option Timed :=
     pure (d, .dgram { src := a, parses := p, isResponse := r, id := i, questions := q })
   | _ => none
 
+/-- `S;<ok|slow|inuse<n>|denied<n>|other>;<ok|err|short>`: the provider's bind results and the socket's
+`send_to` behaviour for one transmission; becomes the `setupFail` pseudo-event when the set-up fails -/
+def parseSetup (s : String) : Option (Option Timed) :=
+  match s.splitOn ";" with
+  | ["S", bind, send] => do
+    let (retryable, fatal) ←
+      if bind == "ok" || bind == "slow" then some (0, false)
+      else if bind == "other" then some (0, true)
+      else if bind.startsWith "inuse" then (bind.drop 5).toString.toNat?.map (·, false)
+      else if bind.startsWith "denied" then (bind.drop 6).toString.toNat?.map (·, false)
+      else none
+    let sendOk ← if send == "ok" then some true else if send == "err" || send == "short" then some false else none
+    pure (if setupFails retryable fatal sendOk then some (0, .setupFail) else none)
+  | _ => none
+
+def parseScript (toks : List String) : Option (List Timed) :=
+  match toks with
+  | t :: rest =>
+    if t.startsWith "S;" then do
+      let pre ← parseSetup t
+      let evs ← rest.mapM parseEvent
+      pure (match pre with | some e => e :: evs | none => evs)
+    else toks.mapM parseEvent
+  | [] => some []
+
 /-- split the token list at `|` -/
 def splitBar : List String → List (List String)
   | [] => [[]]
@@ -74,27 +99,34 @@ def showEndClass : EndClass → String
 
 def handleUdp (toks : List String) : Option String :=
   match splitBar toks with
-  | [timeout, interval, floor, maxr, server, id, cr, qs] :: scripts => do
+  | [timeout, interval, floor, maxr, server, id, crTok, qs] :: scripts => do
     let timeout ← timeout.toNat?; let interval ← interval.toNat?; let floor ← floor.toNat?; let maxr ← maxr.toNat?
-    let server ← parseAddr server; let id ← id.toNat?; let cr ← parseBool (String.ofList (cr.toList.take 1)); let qs ← parseQuestions qs
+    let server ← parseAddr server; let id ← id.toNat?; let cr ← parseBool (String.ofList (crTok.toList.take 1)); let qs ← parseQuestions qs
     let c : Config := { timeout := timeout, interval := retryInterval interval floor, maxRetries := maxr }
-    let rq : Request := { server := server, id := id, caseRand := cr, questions := qs }
-    let ss ← scripts.mapM fun s => s.mapM parseEvent
+    -- `s` in the flag token: a TSIG signer is configured; it signs when there is an AXFR / IXFR question
+    let signed := crTok.toList.contains 's' && qs.any fun q => q.qtype == 252 || q.qtype == 251
+    let rq : Request := { server := server, id := id, caseRand := cr, questions := qs, signed := signed }
+    let ss ← scripts.mapM parseScript
+    -- `e` in the flag token: the request does not encode, the first transmission fails before binding
+    let ss := if crTok.toList.contains 'e' then ((0, Event.setupFail) :: ss.headD []) :: ss.tail else ss
     pure (showQuery (query c rq ss) ++ " " ++ showConsumed (consumedList c rq ss) ++ " k=" ++
       showEndClass (queryEndClass c rq ss))
   | _ => none
 
 /-! ## multiplexer blocks
 
-`begin mux <timeout ms> <max_active> <stalled01>` … `end`.  Request `k` gets the model id `k + 1`; `u` is
+`begin mux <timeout ms> <max_active> <stalled01>[s]` … `end` (`s`: a TSIG signer is configured).  Request `k` gets the model id `k + 1`; `u` is
 an id no request has (0).  In a non-stalled block the stream takes every outbound message at once
 (so the peer knows the id); in a stalled block it never does.
-ops: `send k` · `deliver r<k>|u|g|q<k>|e|c <count>` · `poll` · `recv k` · `cancel k` · `advance ms` ·
+ops: `send k [e] [x]` (`e`: a request that does not encode; `x`: an AXFR question — signed when a
+signer is configured, and then the unsigned frames routed to it fail verification) · `deliver r<k>|u|g|q<k>|e|c <count>` · `poll` · `recv k` · `cancel k` · `advance ms` ·
 `shutdown` · `end` (every live caller drains its stream: the summary is the answer). -/
 
 structure MuxDrv where
   s : Mux.State
   stalled : Bool
+  /-- `with_signer(..)` -/
+  signer : Bool := false
   nextTag : Nat := 0
   /-- requests whose message reached the peer -/
   known : List Nat := []
@@ -156,9 +188,12 @@ def summary (s : Mux.State) : String :=
 
 def muxStep (d : MuxDrv) (toks : List String) : Option (MuxDrv × String) :=
   match toks with
-  | ["send", k] => do
+  | "send" :: k :: opt => do
     let k ← k.toNat?
-    match Mux.send d.s k [k + 1] with
+    let (enc, axfr) ← match opt with
+      | [] => some (true, false) | ["e"] => some (false, false)
+      | ["x"] => some (true, true) | ["e", "x"] => some (false, true) | _ => none
+    match Mux.send d.s k [k + 1] enc (d.signer && axfr) with
     | .panic _ => pure (d, "panic")
     | .err => pure (d, "panic")
     | .ok (s', .sent _) =>
@@ -195,10 +230,11 @@ def step (s : State) (toks : List String) : State × String :=
   match toks with
   | "udp" :: rest => (s, (handleUdp rest).getD "bad-op")
   | ["consts"] =>
-    (s, s!"{UdpMatch.MAX_EXAMINED} {Mux.QOS_MAX_RECEIVE_MSGS} {Mux.ID_TRIES} {Mux.CHAN_CAP} {Mux.OUT_CAP}")
+    (s, s!"{UdpMatch.MAX_EXAMINED} {Mux.QOS_MAX_RECEIVE_MSGS} {Mux.ID_TRIES} {Mux.CHAN_CAP} {Mux.OUT_CAP} {UdpMatch.BIND_RETRIES}")
   | "begin" :: "mux" :: t :: m :: st :: _ =>
-    match t.toNat?, m.toNat?, parseBool st with
-    | some t, some m, some st => (some { s := Mux.init t m, stalled := st }, "ok")
+    match t.toNat?, m.toNat?, parseBool (String.ofList (st.toList.take 1)) with
+    | some t, some m, some stl =>
+      (some { s := Mux.init t m, stalled := stl, signer := st.toList.contains 's' }, "ok")
     | _, _, _ => (none, "bad-op")
   | ["end"] =>
     match s with
